@@ -33,7 +33,16 @@ Inductive case :=
 (* round 4 - size boundaries: a large UTXO set [us] (given oldest first), served in several orders
    (oldest first / newest first / rotated); one run per order *)
 | BigCase (ps : list prop) (us : list utxo) (rate : Z)
-          (bridge_key cid : list N) (upload_ok : bool) (impl : list run_obs).
+          (bridge_key cid : list N) (upload_ok : bool) (impl : list run_obs)
+(* round 5 - duplicate / overlapping proposals: deliveries [dels] (one: through the real Execute and
+   through proposalsForExecution + rawTx; several: handed CONCURRENTLY to one Executor), every
+   proposal with its deposit (source, nonce), resource and payment; [orders] = the orders in which the
+   deliveries may have been handled; [keys] = bridge key per resource, all bridge addresses hold
+   [us]; one entry of [runs] per run: per transaction the resource, the deposits its metadata lists
+   and the transaction if the run builds it (None: the run stops before the UTXO query) *)
+| DupCase (dels : list (list dprop)) (orders : list (list nat)) (keys : list (list N))
+          (us : list utxo) (rate : Z) (cid : list N)
+          (runs : list (list (N * list (N * N) * option run_obs))).
 
 Definition dummy := mkUtxo [] 0 0 0.
 Definition permute (us : list utxo) (p : list nat) : list utxo := map (fun i => nth i us dummy) p.
@@ -86,6 +95,40 @@ Definition wf_big (ps : list prop) (us : list utxo) (rate : Z) : bool :=
   && (0 <=? rate)
   && (amounts ps + values us + fee_quote (len us + len ps) (len ps + 1) rate <? two63).
 
+(* every model element is matched by its own observed element, and nothing is left over *)
+Fixpoint match_all {A B} (f : A -> B -> bool) (ms : list A) (os : list B) : bool :=
+  match ms with
+  | [] => match os with [] => true | _ => false end
+  | m :: r => match remove_first (f m) os with
+              | None => false
+              | Some os' => match_all f r os'
+              end
+  end.
+
+(* the observed transaction against the model's group: same resource, the metadata lists exactly the
+   deposits of the group (in whatever order - the property fixes none), and the transaction is the
+   model's for the group's proposals taken in THAT order *)
+Definition dtx_agree (keys : list (list N)) us rate cid (g : N * list dprop)
+           (o : N * list (N * N) * option run_obs) : bool :=
+  (fst g =? fst (fst o))%N && match_all key_eqb (map key_of (snd g)) (snd (fst o))
+  && match lookup_keys (snd g) (snd (fst o)) with
+     | None => false
+     | Some gps =>
+         let ps := map d_pay gps in
+         match snd o with
+         | None => true
+         | Some ro => agree_res (raw_tx ps us rate (bridge_of keys (fst g)) cid true) ps rate ro
+         end
+     end.
+
+Definition dup_agree dels (orders : list (list nat)) keys us rate cid
+           (run : list (N * list (N * N) * option run_obs)) : bool :=
+  existsb (fun o => match_all (dtx_agree keys us rate cid)
+                              (serial_groups [] (map (fun i => nth i dels []) o)) run) orders.
+
+Definition dup_obs (run : list (N * list (N * N) * option run_obs)) : list dtx :=
+  map (fun o => (fst o, option_map drop_used (snd o))) run.
+
 Definition agree (c : case) : bool :=
   match c with
   | Case ps us ls rate key cid up impl => agree_tx ps us ls rate key cid up impl
@@ -101,6 +144,10 @@ Definition agree (c : case) : bool :=
          for every listing of it *)
       let m := raw_tx ps us rate (bridge_script key) cid up in
       wf_big ps us rate && forallb (agree_res m ps rate) impl
+  | DupCase dels orders keys us rate cid runs =>
+      consistent (concat dels) && forallb (is_perm (length dels)) orders
+      && groups_wf (serial_groups [] dels) us rate
+      && forallb (dup_agree dels orders keys us rate cid) runs
   end.
 
 Definition judge (c : case) : bool :=
@@ -113,6 +160,10 @@ Definition judge (c : case) : bool :=
   | SeqCase key builds =>
       seq_spec (bridge_script key) (map (fun b => (sb_ps b, sb_us b, map drop_used (sb_impl b))) builds)
   | BigCase ps us rate key cid up impl => spec_all ps us (bridge_script key) (map drop_used impl)
+  | DupCase dels orders keys us rate cid runs =>
+      (* one delivery: no deposit twice over all its transactions; concurrent deliveries: per
+         transaction (a deposit paid by two deliveries is the business of C03) *)
+      forallb (fun run => dup_ok (length dels =? 1)%nat (concat dels) keys us (dup_obs run)) runs
   end.
 
 (* model branch: 0 error, 1 exact (no change), 2 change; +3 if more than one input *)
@@ -138,6 +189,10 @@ Definition tag (c : case) : N :=
          negb (sb_svc b) || match raw_tx (sb_ps b) (sb_us b) (sb_rate b) (bridge_script key) (sb_cid b) (sb_up b) with
                             | Err => true | Tx _ => false end) builds))))%N
   | BigCase ps us rate key cid up _ => (40 + tag_tx ps us rate key cid up)%N
+  | DupCase dels _ _ _ _ _ _ =>
+      (* 60 + number of delivered proposals that are NOT selected (capped); +10: several deliveries *)
+      (60 + (if (1 <? length dels)%nat then 10 else 0)
+       + N.min 9 (N.of_nat (length (concat dels) - length (select_props [] (concat dels)))))%N
   end.
 
 Definition check_all := check_cases agree judge tag.
